@@ -269,6 +269,7 @@ GLOBAL_WRITES = {}    # qualified name -> number of writes seen
 GLOBAL_READS = {}     # module.name of a module-level variable that some function rebinds (`global`) -> reads seen
 WRITTEN_GLOBALS = set()   # (module name, variable) declared `global` in some function of the repository (static scan)
 LOADING = [0]         # >0 while module-level code is being executed
+DROPPED = []          # (module, line, names, reason) of module-level statements of the repository that could not be interpreted
 
 
 def register_global(name, v, depth=0):
